@@ -24,7 +24,7 @@ class Prop(PropBase):
                                         "C05_inverse_pointwise", "C05_inverse", "C05_group_delay", "C05_model_matches_real",
                                         "C05_crop_valid", "C05_crop_tight", "C05_crop_impl", "C05_infinite_reference",
                                         "C05_source_formula")]
-    trusted_base = ["PbModel/Disp.lean + Gen/Disp.lean", "numpy.fft complex128 oracle"]
+    trusted_base = ["pbverif/extract.py: symbolic evaluation of the method bodies into PbModel/Gen/Disp.lean (trusted to render the source expressions faithfully; tied to the hand model by the C05_source_* theorem)", "PbModel/Disp.lean + Gen/Disp.lean", "numpy.fft complex128 oracle"]
     assumptions = ["band entirely at positive frequencies"]
     rule = ("DM +-1e-4..1e2 scaled so band-edge delays span 0..>N samples; centre 0.15-1.4 GHz, rate 1 kHz-16 MHz, nchan 1-4 x 3 "
             "alignments, ref inside / at both edges / outside, N in {8..192} incl. non powers of two, extra dims, complex64/128, "
